@@ -2,10 +2,27 @@
    gaussian_pdf / make_grid_vectors in sleap_nn/data/utils.py).  No proofs here.
 
    Numbers.  Coordinates and sigma are exact rationals; sizes/strides nat.  A
-   keypoint is `option (Q*Q)`; None = a keypoint with ANY NaN coordinate (every
-   float operation of this file that touches one NaN coordinate of an endpoint
-   yields NaN in both components: `norm` of the direction is NaN, `maximum(NaN,1)`
-   is NaN, `clamp(NaN)` is NaN; and `NaN > 0` is false in the in-image filter).
+   keypoint is `option (Q*Q)`; None = a keypoint with ANY NaN coordinate.  Every
+   float operation of edge_maps.py that touches one NaN coordinate of an endpoint
+   yields NaN in both components: `norm` of the direction is NaN; in
+   distance_to_edge the NaN reaches the result through the NUMERATOR of the
+   projection, `sum(rel * dir, dim=3)` adds the x- and the y-product (current tree:
+   `torch.where(NaN > 0, NaN, 1)` makes the divisor 1; pinned tree before fix
+   5bfaeb9: `maximum(NaN, 1)` = NaN), `clamp(NaN)` is NaN and the final sum over the
+   last axis mixes both components again; `NaN >= 0` is false in the in-image filter.
+
+   Division is PARTIAL in this model (review round 4, finding 1): `qdiv n d` is
+   None (= not a finite number) when the divisor is 0.  The two divisions of the
+   file are the projection of distance_to_edge (divisor: the guarded edge length)
+   and gaussian_pdf (divisor 2 sigma^2).  In floats 0/0 = NaN and x/0 = +-inf for
+   x <> 0; the only way the projection's divisor can be 0 is a zero-length edge,
+   whose numerator is 0 as well (direction vector 0), so None = NaN there; for
+   sigma = 0 (outside the domain) the float code yields exp(-inf) = 0 off the
+   segment and NaN on it, which the NaN sweep of make_multi_pafs turns into an
+   all-zero field: None ("no term") has the same value.  That the guarded divisor
+   is never 0 is a THEOREM (c05_projection_divisor_positive) which the "never NaN"
+   theorems consume; `dist_edge_div` takes the divisor as an argument so that the
+   unguarded code (divisor |d|^2) can be written down and shown to give NaN.
 
    The model does not compute exp / sqrt.  One instance's contribution to one
    output cell is a `term = (a, n, l2)` whose real value is
@@ -16,20 +33,25 @@
    A cell of make_multi_pafs / generate_pafs is a `list term` whose value is the
    sum (pafs += paf); `paf[isnan(paf)] = 0` turns a NaN contribution into no term.
 
-   Quirks of the code kept as they are:
-   * distance_to_edge divides the projection by max(|d|^2, 1), not |d|^2:
-     parameter `fixed_len = false`.  `fixed_len = true` is the proposed repair
-     (divide by |d|^2, by 1 only when |d|^2 = 0); the harness detects which one
-     the code implements;
+   Variants (boolean parameters; the harness detects on every run which one the
+   code implements by replaying the corpus witnesses, and additionally evaluates the
+   `false` variants against the pre-repair source obtained by reverse-applying
+   proposed_fixes/C05_F1.diff / C05_F23.diff to the current file):
+   * `fixed_len = true`  — CURRENT tree (since fix 5bfaeb9): the projection is divided
+     by |d|^2, by 1 only when |d|^2 = 0 (`torch.where(len > 0, len, 1)`);
+     `fixed_len = false` — PINNED tree (before fix 5bfaeb9, finding F1): divided by
+     max(|d|^2, 1);
+   * `fixed_box = true`  — CURRENT tree (since fix f00ee7f): generate_pafs keeps an
+     animal iff one node lies in the closed rectangle [0,W-1]x[0,H-1];
+     `fixed_box = false` — PINNED tree (before fix f00ee7f, finding F23): iff one node
+     lies STRICTLY inside (0, xv[-1]) x (0, yv[-1]) where xv[-1], yv[-1] are the LAST
+     GRID coordinates (not W-1, H-1).
+   Other quirks, unchanged in the current tree:
    * distance_to_edge returns a SQUARED distance D2 and gaussian_pdf squares it
      again: the weight is exp(-(D2)^2 / (2 sigma^2));
    * sigma is NOT multiplied by the output stride (unlike confidence maps);
    * a zero-length edge has unit vector 0/0 = NaN, which becomes 0;
-   * generate_pafs keeps an animal iff one node lies STRICTLY inside
-     (0, xv[-1]) x (0, yv[-1]) where xv[-1], yv[-1] are the LAST GRID
-     coordinates (not W-1, H-1): parameter `fixed_box = false`.
-     `fixed_box = true` is the proposed repair (closed box [0,W-1]x[0,H-1]);
-     the harness detects which one the code implements. *)
+   * the shape is (2E, ceil(H/s), ceil(W/s)) (`torch.arange(0, n, s)`), not floor. *)
 From Coq Require Import String Ascii.
 From SV Require Import Base.Render.
 From Coq Require Import List Arith ZArith QArith Bool.
@@ -56,28 +78,38 @@ Definition clamp01 (t : Q) : Q :=                                        (* torc
 Definition len2 (s d : Q * Q) : Q := sq (fst d - fst s) + sq (snd d - snd s).
 
 (* the divisor of the projection:
-   fixed_len = false: torch.maximum(|d|^2, 1)      (the code as it is)
-   fixed_len = true : torch.where(|d|^2 > 0, |d|^2, 1)   (proposed repair of F1) *)
+   fixed_len = false: torch.maximum(|d|^2, 1)             (pinned tree, before fix 5bfaeb9)
+   fixed_len = true : torch.where(|d|^2 > 0, |d|^2, 1)    (current tree) *)
 Definition edge_len (fixed_len : bool) (l : Q) : Q :=
   if fixed_len then (if Qeq_bool l 0 then 1 else l) else qmax l 1.
+
+(* float division as far as finiteness goes: None when the divisor is 0 *)
+Definition qdiv (n d : Q) : option Q := if Qeq_bool d 0 then None else Some (n / d).
+
+Definition obind {A B} (f : A -> option B) (o : option A) : option B :=
+  match o with Some a => f a | None => None end.
+
+(* distance_to_edge for one point (x,y) and one edge with finite endpoints, the
+   projection being divided by `el`; None = NaN *)
+Definition dist_edge_div (el : Q) (s d : Q * Q) (x y : Q) : option Q :=
+  let dx := fst d - fst s in
+  let dy := snd d - snd s in
+  let rx := x - fst s in
+  let ry := y - snd s in
+  option_map (fun q => let t := clamp01 q in sq (t * dx - rx) + sq (t * dy - ry))
+             (qdiv (rx * dx + ry * dy) el).
 
 Section Variant.
 Variable fixed_len : bool.
 
-(* distance_to_edge for one point (x,y) and one edge with finite endpoints *)
-Definition dist_edge (s d : Q * Q) (x y : Q) : Q :=
-  let dx := fst d - fst s in
-  let dy := snd d - snd s in
-  let el := edge_len fixed_len (sq dx + sq dy) in
-  let rx := x - fst s in
-  let ry := y - snd s in
-  let t := clamp01 ((rx * dx + ry * dy) / el) in
-  sq (t * dx - rx) + sq (t * dy - ry).
+(* the code: the divisor is the guarded edge length *)
+Definition dist_edge (s d : Q * Q) (x y : Q) : option Q :=
+  dist_edge_div (edge_len fixed_len (len2 s d)) s d x y.
 
 (* None = NaN *)
 Definition dist_edge_opt (s d : kp) (x y : Q) : option Q :=
   match s, d with
-  | Some s', Some d' => Some (dist_edge s' d' x y)
+  | Some s', Some d' => dist_edge s' d' x y
   | _, _ => None
   end.
 
@@ -91,8 +123,8 @@ Fixpoint map2 {A B C} (f : A -> B -> C) (l : list A) (m : list B) : list C :=
 Definition distance_to_edge (pts : chan (Q * Q)) (srcs dsts : list kp) : chan (list (option Q)) :=
   map (map (fun p => map2 (fun s d => dist_edge_opt s d (fst p) (snd p)) srcs dsts)) pts.
 
-(* gaussian_pdf: the argument of exp *)
-Definition gauss_arg (sig : Q) (x : Q) : Q := - (sq x) / (2 * sq sig).
+(* gaussian_pdf: the argument of exp; None when 2 sigma^2 = 0 (outside the domain) *)
+Definition gauss_arg (sig : Q) (x : Q) : option Q := qdiv (- (sq x)) (2 * sq sig).
 
 Definition sampling_grid (xv yv : list Q) : chan (Q * Q) :=
   map (fun y => map (fun x => (x, y)) xv) yv.
@@ -100,7 +132,7 @@ Definition sampling_grid (xv yv : list Q) : chan (Q * Q) :=
 (* make_edge_maps -> (h, w, E): argument of exp, None = NaN *)
 Definition make_edge_maps (xv yv : list Q) (srcs dsts : list kp) (sig : Q)
   : chan (list (option Q)) :=
-  map (map (map (option_map (gauss_arg sig)))) (distance_to_edge (sampling_grid xv yv) srcs dsts).
+  map (map (map (obind (gauss_arg sig)))) (distance_to_edge (sampling_grid xv yv) srcs dsts).
 
 (* unit vector (dst - src) / norm(dst - src) as (dx, dy, len2); None = NaN
    (missing endpoint, or 0/0 for a zero-length edge) *)
@@ -114,8 +146,8 @@ Definition unit_vec (s d : kp) : option (Q * Q * Q) :=
 
 (* one cell of make_pafs for one edge: (x-component, y-component); None = NaN *)
 Definition paf_cell (sig : Q) (s d : kp) (x y : Q) : option term * option term :=
-  match unit_vec s d, dist_edge_opt s d x y with
-  | Some (dx, dy, l), Some D => (Some (gauss_arg sig D, dx, l), Some (gauss_arg sig D, dy, l))
+  match unit_vec s d, obind (gauss_arg sig) (dist_edge_opt s d x y) with
+  | Some (dx, dy, l), Some a => (Some (a, dx, l), Some (a, dy, l))
   | _, _ => (None, None)
   end.
 
@@ -145,8 +177,11 @@ Definition make_multi_pafs (xv yv : list Q) (n_edges : nat) (srcss dstss : list 
             (combine srcss dstss) (zeros n_edges (length yv) (length xv)).
 
 (* get_edge_points: instances[:, source_inds], instances[:, destination_inds].
-   Node indices are assumed in range (torch raises IndexError otherwise); the
-   model's default for an out-of-range index is None. *)
+   Node indices must be in range: torch raises IndexError otherwise (as soon as one
+   animal is kept), whereas the model's default for an out-of-range index is None.
+   `in_domain` below is the decidable domain predicate; the theorems about whole fields
+   carry it (or its two conjuncts) as hypotheses and `generate_pafs_checked` is the entry
+   point the harness compares with the code's exceptions. *)
 Definition node (inst : list kp) (k : nat) : kp := nth k inst None.
 
 Definition get_edge_points (insts : list (list kp)) (edges : list (nat * nat))
@@ -171,8 +206,10 @@ Definition node_in_closed (xm ym : Q) (p : kp) : bool :=
 
 Definition nat_Q (n : nat) : Q := inject_Z (Z.of_nat n).
 
-(* fixed_box = false: the code as it is, (instances > 0) & (instances < (xv[-1], yv[-1]));
-   fixed_box = true: proposed repair, (instances >= 0) & (instances <= (W-1, H-1)) *)
+(* fixed_box = false: pinned tree (before fix f00ee7f), (instances > 0) & (instances < (xv[-1], yv[-1]));
+   fixed_box = true: current tree, (instances >= 0) & (instances <= (W-1, H-1)).
+   W, H >= 1 is a domain hypothesis of the theorems that speak about the box (W - 1 is a
+   truncated subtraction on nat; for W = 0 the code's box is empty and so is the grid). *)
 Definition in_img (fixed_box : bool) (H W : nat) (xv yv : list Q) (inst : list kp) : bool :=
   if fixed_box
   then existsb (node_in_closed (nat_Q (W - 1)) (nat_Q (H - 1))) inst
@@ -205,7 +242,34 @@ Definition datapipe (fixed_box : bool) (exs : list (nat * nat * list (list (list
 
 End Variant.
 
-(* selectors of the known findings, as decidable predicates on the inputs *)
+(* the domain of generate_pafs (finding 4 of the round-4 review): at least one sample
+   (`instances[0]`: IndexError otherwise), stride >= 1 (`torch.arange(..., step=0)`:
+   RuntimeError) and, for every KEPT animal of sample 0, the node indices of every edge
+   in range (`instances[:, inds]`: IndexError as soon as one animal is kept; with no kept
+   animal torch does not look at the indices).  Negative indices (torch wraps them) are
+   not representable (nat): outside the model. *)
+Definition edges_in_range (n_nodes : nat) (edges : list (nat * nat)) : bool :=
+  forallb (fun e => (fst e <? n_nodes)%nat && (snd e <? n_nodes)%nat) edges.
+
+Definition in_domain (fixed_box : bool) (samples : list (list (list kp))) (H W s : nat)
+  (edges : list (nat * nat)) : bool :=
+  match samples with
+  | [] => false
+  | smp :: _ =>
+      (1 <=? s)%nat &&
+      forallb (fun inst => edges_in_range (length inst) edges)
+              (filter (in_img fixed_box H W (grid W s) (grid H s)) smp)
+  end.
+
+(* None = the code raises *)
+Definition generate_pafs_checked (fl fixed_box : bool) (samples : list (list (list kp))) (H W : nat)
+  (sig : Q) (s : nat) (edges : list (nat * nat)) : option (list (list (chan pcell))) :=
+  if in_domain fixed_box samples H W s edges
+  then Some (generate_pafs fl fixed_box samples H W sig s edges) else None.
+
+(* selectors of the findings F1 / F23 (both fixed in the current tree), as decidable
+   predicates on the inputs; the harness evaluates them (case CSel) and compares them
+   with the Python selectors of the oracle *)
 (* F1: the code divides by max(len2,1) and the edge is shorter than one pixel but not
    of zero length *)
 Definition selector_F1 (fixed_len : bool) (s d : Q * Q) : bool :=
@@ -228,12 +292,13 @@ Definition cell4 {A} (out : list (list (chan A))) (e c i j : nat) : option A :=
   end.
 
 (* ---- entry point for the correspondence harness: results as JSON trees ---- *)
-Inductive tree := TQ (q : Q) | TNull | TList (l : list tree).
+Inductive tree := TQ (q : Q) | TNull | TB (b : bool) | TList (l : list tree).
 
 Fixpoint rtree (t : tree) : rdr :=
   match t with
   | TQ q => rQ q
   | TNull => rstr "null"
+  | TB b => rstr (if b then "true" else "false")
   | TList l => fun k =>
       String "[" ((fix go (first : bool) (l : list tree) : rdr := fun k =>
                      match l with
@@ -258,7 +323,13 @@ Inductive case :=
 | CGen (fl fixed_box flat : bool) (samples : list (list (list kp))) (H W : nat) (sig : Q) (s : nat)
        (edges : list (nat * nat))
 | CPipe (fl fixed_box flat : bool) (exs : list (nat * nat * list (list (list kp)))) (sig : Q) (s : nat)
-        (edges : list (nat * nat)).
+        (edges : list (nat * nat))
+| CGenChk (fl fixed_box : bool) (samples : list (list (list kp))) (H W : nat) (sig : Q) (s : nat)
+          (edges : list (nat * nat))
+| CSel (H W s : nat) (insts : list (list kp)) (edges : list (nat * nat)).
+
+Definition sel_F1_kp (s d : kp) : bool :=
+  match s, d with Some s', Some d' => selector_F1 false s' d' | _, _ => false end.
 
 Definition tpafs (p : list (list (chan pcell))) : tree := tl_ (tl_ (tl_ (tl_ (tl_ tterm)))) p.
 
@@ -275,4 +346,9 @@ Definition run (c : case) : tree :=
       if flat then tl_ (tl_ (tl_ (tl_ tterm))) (generate_pafs_flat fl fb smp H W sig s edges)
       else tpafs (generate_pafs fl fb smp H W sig s edges)
   | CPipe fl fb flat exs sig s edges => tl_ tpafs (datapipe fl fb exs sig s edges flat)
+  | CGenChk fl fb smp H W sig s edges => topt tpafs (generate_pafs_checked fl fb smp H W sig s edges)
+  | CSel H W s insts edges =>
+      tl_ (fun inst => TList [TB (selector_strict_box H W s inst);
+                              tl_ (fun e => TB (sel_F1_kp (node inst (fst e)) (node inst (snd e)))) edges])
+          insts
   end.
